@@ -35,6 +35,7 @@ Rt == /\ Ev.t = "rt" /\ seq' = Ev.n
 Size == /\ Ev.t = "size" /\ seq' = Ev.n
         /\ IF Ev.ret \notin SizeClass(Ev.klen, Ev.esize, Ev.T) THEN Fail("size class violated: reply " \o Ev.ret)
            ELSE IF Ev.ret = "ok" /\ ~Ev.readback THEN Fail("an accepted entry does not read back")
+           ELSE IF Ev.ret = "ok" /\ Ev.copies # Ev.R THEN Fail("an accepted entry is not held, equal, by the owner and every backup")
            ELSE IF Ev.ret # "ok" /\ Ev.stored THEN Fail("a rejected entry left a copy behind")
            ELSE IF ~Ev.neighbours THEN Fail("a neighbour was damaged")
            ELSE Ok
